@@ -309,7 +309,7 @@ def _main(run, tier, seed):
 
     # ---- R3: seeded linear histories with fingerprints
     rnd = random.Random(seed)
-    nlin, maxl = (8, 8) if quick else (48, 12)
+    nlin, maxl = (8, 8) if quick else (160, 12)
     lin = []
     for k in range(nlin):
         n = rnd.randint(4, maxl)
